@@ -112,7 +112,7 @@ CORPUS = [
 def main():
     R = vf.Report(PID)
     proved = R.proof_step()
-    n = 20000 if R.thorough else 1500
+    n = 80000 if R.thorough else 1500
     sessions = list(CORPUS) + [gen_session(R.rng) for _ in range(n)]
     nw = 8
     chunks = [sessions[i::nw] for i in range(nw)]
